@@ -284,6 +284,11 @@ def correspondence(chk, n, kinds, tag):
             if got[si_] != pos0[si_] or got[ei_] != pos0[ei_]:
                 chk.fail("equalise:end-points-moved", "FineContour.equaliseSpacing moved the point at startInd or endInd", {"case": c, "got": r["positions"]})
             dd = [float.fromhex(v) for v in r["distance"]]
+            rec = [0.0]
+            for (a0, b0), (a1, b1) in zip(got[:-1], got[1:]):
+                rec.append(rec[-1] + math.hypot(a1 - a0, b1 - b0))
+            if len(rec) != len(dd) or any(abs(x - y) > 1e-12 * max(1.0, rec[-1]) for x, y in zip(rec, dd)):
+                chk.fail("equalise:stale-distance", "after FineContour.equaliseSpacing the cached distance is not the distance along the final positions", {"case": c, "distance": r["distance"]})
             ds = [b - a for a, b in zip(dd[:-1], dd[1:])]
             err = max(abs(x - sum(ds) / len(ds)) for x in ds)
             if not r["warned"] and err > float.fromhex(c["atol"]) * (1 + 1e-9) + 1e-18:
